@@ -125,6 +125,11 @@ def Store.deleteRange (s : Store) (min max : Nat) : Store :=
   let lim := if max = 18446744073709551615 then none else some (max + 1)
   { s with kv := s.kv.filter (fun e => !(inRange min lim e.1 && !isStable e.1)) }
 
+/-- `GetBulkIterator(start, limit)`: the keys in `[be64 start, be64 limit)` in key order — nothing when
+`limit ≤ start` (the snapshot code passes `last+1` and relies on an empty range being empty) -/
+def Store.bulkKeys (s : Store) (start limit : Nat) : List Bytes :=
+  (s.kv.filter (fun e => inRange start (some limit) e.1)).map (·.1)
+
 def Store.set (s : Store) (k v : Bytes) : Store := { s with kv := kvPut s.kv (stablePrefix ++ k) (.raw v) }
 
 def Store.get (s : Store) (k : Bytes) : Except Err (Option Bytes) :=
